@@ -281,6 +281,24 @@ def run(ctx):
                     ctx.hit("x form:" + what)
             if i < len(kinds) and i % 5 == 0:
                 ctx.sample("term", {"spec": spec, "x": xs[:8], "membership": term.membership(np.array(xs[:8]))})
+        # parameters that are exactly zero (a plateau ending at the origin, a range starting there): zero is a value like any other
+        for i, rnd in ctx.cases("zero parameters", len(kinds) * ctx.scale(4, 40)):
+            kind = kinds[i % len(kinds)]
+            base = G.shape_term(rnd, "t", -1.0, 1.0, kind=kind, d=3, degenerate=False)
+            for j in range(len(base["params"])):
+                for zero in (0.0, -0.0):
+                    spec = dict(base, params=[zero if k == j else v for k, v in enumerate(base["params"])], height=rnd.choice([1.0, 0.5]))
+                    if kind == "Discrete" or not R.valid(kind, tuple(spec["params"]), spec["height"]):
+                        continue
+                    term = G.build_term(fl, spec, route=rnd.choice(["constructor", "factory"]))
+                    held = R.params_of(term)
+                    asked = (kind, tuple(float(v) for v in spec["params"]), float(spec["height"]))
+                    ctx.evaluated()
+                    ctx.hit("workload:a parameter that is exactly zero")
+                    if held != asked:
+                        ctx.violation("a term built with a parameter of exactly zero does not hold the parameters and height it was given", {"term": kind, "params": spec["params"], "height": spec["height"]}, asked, held)
+                        continue
+                    term.membership(np.array(G.x_values(rnd, spec, -1.0, 1.0, n=6)))
         # the same term and the same array object used again after the array was refilled / a parameter was changed (stale state)
         for i, rnd in ctx.cases("reuse", len(kinds) * ctx.scale(6, 120)):
             kind = kinds[i % len(kinds)]
@@ -365,6 +383,7 @@ def run(ctx):
         mon.check_monotonic()
         probe.report(ctx)
         reach.report(ctx)
+    ctx.require("workload:a parameter that is exactly zero")
     ctx.require("workload:range far from the origin, very wide or very narrow", *[f"environment:{e}" for e in ENVIRONMENTS])
     ctx.require("workload:large batch", "event:Discrete sorted before evaluation", "law:results of earlier calls left alone", "x form:transposed", "x form:integer array", "x form:read-only row broadcast over a batch")
     for k in kinds:
